@@ -263,7 +263,7 @@ def worlds(tier, seed):
                 k += 1
                 if tier == "quick" and k % 4 == 3 and len(eng) == 2 and eng not in (("SEA", "CMAf"), ("SHADE", "CMAs")):
                     continue
-                d = dict(engines=list(eng), gens=1 + k % 2, Mh=4, seed=s, hib=hib, lambda_obj=lam, obj=("twofunnel", "sphere_in")[k % 2], maximize=bool(k % 3 == 0),
+                d = dict(engines=list(eng), gens=1 + k % 2, Mh=4, seed=s, hib=hib, lambda_obj=lam, obj=("twofunnel", "sphere_in", "plateau", "const")[k % 4], maximize=bool(k % 3 == 0),
                          sprout={"kind": ("simple", "nbc")[k % 2], "L": 2}, lsc=[None] + [{"kind": "metaepoch", "m": 2}] * (len(eng) - 1))
                 if k % 5 == 0:
                     d["gsc"] = {"kind": "evals", "n": 70}
